@@ -37,6 +37,9 @@ type histMachine struct {
 	gmN   *spec.Node
 	po    *of.PacketOut
 	poN   *spec.Node
+	wrap  *of.VendorHeader // a bundle-add carrying fm: sized and encoded after every step while fm goes on changing
+	wrapN *spec.Node       // without the carried message; the invariant adds fm's current tree
+	wrapP []*spec.Node
 	hist  []string
 	prep  bool
 	kinds map[string]bool
@@ -56,6 +59,16 @@ func newHistMachine(rt *rapid.T) *histMachine {
 	f.Match = *of.NewMatch()
 	fn.Kids = []*spec.Node{spec.N("match")}
 	m.fm, m.fmN = f, fn
+	ba := &of.BundleAdd{BundleID: g.U32("wrap_bundle_id"), Flags: g.U16("wrap_flags"), Message: f}
+	if g.Chance("wrap_props", 1, 3) {
+		p := of.NewBundlePropertyExperimenter()
+		p.ExperimenterID, p.ExperimenterType, p.Length = g.U32("wrap_prop_exp"), g.U32("wrap_prop_type"), 12
+		ba.Properties = append(ba.Properties, *p)
+		m.wrapP = append(m.wrapP, spec.N("bundle_prop.experimenter", spec.U("experimenter", uint64(p.ExperimenterID)), spec.U("exp_type", uint64(p.ExperimenterType)), spec.B("data", nil)))
+	}
+	m.wrap = of.NewBundleAdd(ba)
+	m.wrap.Header.Xid = 9
+	m.wrapN = spec.N("msg.onf.bundle_add", spec.U("xid", 9), spec.U("bundle_id", uint64(ba.BundleID)), spec.U("flags", uint64(ba.Flags)))
 	gmm, gn := g.MessageOf("group_mod")
 	gm := gmm.(*of.GroupMod)
 	if gm.Command == of.OFPGC_DELETE {
@@ -192,6 +205,15 @@ func (m *histMachine) rules(c *ev.Collector, prop string, judge func(rt *rapid.T
 			m.gmN.Set("command", uint64(cmd))
 			m.hist = append(m.hist, fmt.Sprintf("group.Command=%d", cmd))
 		},
+		// A size query on its own (a caller logging or batching by size), on any of the messages or the wrapper.
+		"sizeQuery": func(rt *rapid.T) {
+			which := rapid.IntRange(0, 3).Draw(rt, "size_of")
+			v := []util.Message{m.fm, m.gm, m.po, m.wrap}[which]
+			if pf, pm := safeCall(func() { v.Len() }); pf != "" {
+				c.Report(rt, prop+"|size-query-panic|"+pf, pm, map[string]any{"history": m.hist})
+			}
+			m.hist = append(m.hist, fmt.Sprintf("Len(%d)", which))
+		},
 		"": func(rt *rapid.T) {
 			fmN, gmN := m.fmN, m.gmN
 			if m.fm.Command == of.FC_DELETE || m.fm.Command == of.FC_DELETE_STRICT {
@@ -211,6 +233,12 @@ func (m *histMachine) rules(c *ev.Collector, prop string, judge func(rt *rapid.T
 			judge(rt, "flow_mod", m.fm, fmN, m.hist)
 			judge(rt, "group_mod", m.gm, gmN, m.hist)
 			judge(rt, "packet_out", m.po, m.poN, m.hist)
+			w := m.wrapN.Clone()
+			w.Add(fmN)
+			for _, p := range m.wrapP {
+				w.Add(p)
+			}
+			judge(rt, "bundle_add(flow_mod)", m.wrap, w, m.hist)
 		},
 	}
 }
